@@ -820,7 +820,16 @@ class Ctx:
     def format_hook(self, value, spec):
         if self.format_mode == 'marker':
             self.markers.append((value, spec))
-            return '⟦%d⟧' % (len(self.markers) - 1)
+            tok = '⟦%d⟧' % (len(self.markers) - 1)
+            # keep the minimum field width of the spec so that fixed-column
+            # layouts stay aligned
+            import re
+            m = re.match(r'^(?:(.)?([<>=^]))?[-+ ]?#?0?(\d+)?', spec or '')
+            if m and m.group(3):
+                w = int(m.group(3))
+                al = m.group(2) or '>'
+                tok = tok.ljust(w) if al == '<' else tok.center(w) if al == '^' else tok.rjust(w)
+            return tok
         raise Unsupported("format of symbolic number with spec %r" % (spec,))
 
 
